@@ -3,8 +3,8 @@ package mon
 import (
 	"compress/gzip"
 	"crypto/sha256"
-	"io"
 	"fmt"
+	"io"
 	"math/rand/v2"
 	"os"
 	"path/filepath"
